@@ -12,7 +12,7 @@
 From Coq Require Import List ZArith Bool Arith Lia Permutation.
 Import ListNotations.
 From QV Require Import Model.C14 Proofs.C14 Model.C13 Model.C13_inst
-                       Proofs.C13 Proofs.C13_sde Proofs.C13_ens Proofs.C13_imp.
+                       Proofs.C13 Proofs.C13_sde Proofs.C13_ens Proofs.C13_imp Proofs.C13_nm.
 
 (* ---------------------------------------------------------------- seeds *)
 
@@ -138,6 +138,35 @@ Theorem C13_no_jump_trajectory_draws_nothing :
     tr_draws tr = [] /\ tr_coll tr = [].
 Proof. intros U T Y P stream fuel s seed t0 y0 ts fl H. unfold mc_one. now apply no_jump_draws_nothing. Qed.
 Print Assumptions C13_no_jump_trajectory_draws_nothing.
+
+(* nm_mcsolve: the stored trajectory is the Monte-Carlo trajectory plus
+   result.trace, the influence martingale at the output times.  By check C16
+   (Props/C16_nmint.v: C16_nm_integrate_is_mc_integrate, C16_nm_trajectory_trace)
+   NmMCIntegrator integrates exactly like MCIntegrator and the trace is a
+   function `trace_of` of the trajectory's own (time, channel) list and the
+   times; by Props/C13_conf.v the rates and the cache behind it are those of
+   the last-set args.  Hence, trace included, an nm_mcsolve trajectory forgets
+   the integrator's history and reads only the stream of its own seed. *)
+Definition nm_one {U T Y TRACE} (P : mcp U T Y) (trace_of : list (T * nat) -> list T -> TRACE)
+    (stream : seedid -> nat -> U) fuel s seed t0 y0 ts nj fl :=
+  nm_run_one U T Y TRACE (zeroU _ _ _ P) (oneU _ _ _ P) (leU _ _ _ P) (ltT _ _ _ P) (mix _ _ _ P)
+    (nchan _ _ _ P) (prob _ _ _ P) (ode_step _ _ _ P) (find _ _ _ P) (choose _ _ _ P)
+    (jump _ _ _ P) (renorm _ _ _ P) trace_of stream fuel s seed t0 y0 ts nj fl.
+
+Theorem C13_nm_trajectory_forgets_history :
+  forall U T Y TRACE (P : mcp U T Y) trace_of stream fuel (s s' : mci U T Y) seed t0 y0 ts nj fl,
+    @nm_one U T Y TRACE P trace_of stream fuel s seed t0 y0 ts nj fl =
+    nm_one P trace_of stream fuel s' seed t0 y0 ts nj fl.
+Proof. intros. unfold nm_one. apply nm_forgets_history. Qed.
+Print Assumptions C13_nm_trajectory_forgets_history.
+
+Theorem C13_nm_reads_only_own_stream :
+  forall U T Y TRACE (P : mcp U T Y) trace_of st1 st2 fuel (s : mci U T Y) seed t0 y0 ts nj fl,
+    (forall k, st1 (sid seed) k = st2 (sid seed) k) ->
+    @nm_one U T Y TRACE P trace_of st1 fuel s seed t0 y0 ts nj fl =
+    nm_one P trace_of st2 fuel s seed t0 y0 ts nj fl.
+Proof. intros. unfold nm_one. now apply nm_reads_only_own_stream. Qed.
+Print Assumptions C13_nm_reads_only_own_stream.
 
 (* -------------------------------------------------------- diffusive trajectory *)
 Record sdp (V Y : Type) := {
@@ -425,6 +454,17 @@ Example C13_nonvacuous_improved :
     (Some [(8, 0%nat, 0)], [(4, 0%nat)], [(0, 0%nat); (1, 1%nat); (0, 2%nat)]) ] /\
   i_mix (2^1199) (2^1198) = 5 * 2^1197.
 Proof. vm_compute. split; reflexivity. Qed.
+
+(* non-vacuity: the scripted problem of C13_nonvacuous_mc with the trace
+   "number of collapses before each output time" *)
+Example C13_nm_nonvacuous :
+  let tr_of := fun (c : list (Z * nat)) (ts : list Z) =>
+                 map (fun t => length (filter (fun x => Z.ltb (fst x) t) c)) ts in
+  snd (fst (nm_run_one Z Z YY (list nat) 0%Z one120 Z.leb Z.ltb i_mix 2 i_prob
+              (i_ode_step ex_prob) i_find (i_choose ex_prob) (i_jump ex_prob) i_renorm tr_of
+              (i_stream (2 ^ 1199) [[2^1197; 2^1198; 2^1199 + 1; 2^1199; 1]])
+              1000 i_mci0 (fresh 0) 0 (2%nat, 0) [8; 16; 24] false 0))%Z = [0; 1; 2; 2]%nat.
+Proof. vm_compute. reflexivity. Qed.
 
 (* diffusive: dt = 3 time units, tlist 0,6,12: two batches of two rows *)
 Example C13_nonvacuous_sde :
